@@ -56,6 +56,8 @@ void probesFor(const Case &c, const ExecReport &rep, int64_t nBenign,
             if (n >= 2 && (rc == E_RES_MISMATCH || rc == E_RES_DOMAIN))
                 addProbe(probes, "compactCells.error-with-blocks-live:cellToParent-error");
             if (n == 0) addProbe(probes, "compactCells.no-alloc-path");
+            if (n >= 3 && rc == E_DUPLICATE_INPUT)
+                addProbe(probes, "compactCells.error-exit-in-a-later-round:E_DUPLICATE_INPUT");
         }
         if (op.fn == FN_gridDisk || op.fn == FN_gridDiskDistances) {
             if (n == 1 && rc != 0)
